@@ -331,11 +331,11 @@ Section BRIDGEPROOFS.
         { apply (IH (i + 1)%N _ _ e1 (IE.loverride m kvs) Hr Hd2); [exact He|reflexivity|now apply same_map_update]. }
         unfold line_result in H1. exact H1.
       + (* drop *)
-        cbn [run_stages tr_chain tr_stage fold_left]. cbn [IE.sem_stage map]. unfold drop_stage. cbn [p_labels p_fp].
+        cbn [run_stages tr_chain tr_stage fold_left]. cbn [IE.sem_stage map]. unfold drop_stage. cbn [p_labels p_fp]. cbv zeta.
         unfold IE.with_lbl, IE.lbl_of. rewrite Hl.
         set (m' := filter (fun kv => negb (IE.drop_hit (fst kv) (snd kv) (drop_names ps) (drop_vals ps))) m).
         set (e1 := IE.set_fp Q (IE.set_lbl Q e (Some m')) (fpf m')).
-        assert (H1 : line_result c r (i + 1)%N (filter (drop_keeps (map drop_spec ps)) ls) fp e1).
+        assert (H1 : line_result c r (i + 1)%N (filter (drop_keeps (map drop_spec ps)) ls) (hash_labels (filter (drop_keeps (map drop_spec ps)) ls)) e1).
         { apply (IH (i + 1)%N _ _ e1 m' Hr Hd2); [exact He|reflexivity|].
           apply same_filter; [intros kv; apply drop_pred|exact Hsm]. }
         unfold line_result in H1. exact H1.
